@@ -11,6 +11,9 @@ ops
   reset           forget everything
   nospec          (before start) the programs are not disciplined: the property does not apply, flags are
                   printed without a SPECDIFF part (pure model/implementation correspondence)
+  twin            (after start) a second, independent lock object: `twin ok` (the model's state is the state
+                  of ONE lock object; another object has its own state, nothing is shared)
+  null OP         `p_rwlock_<OP> (NULL)`: FALSE, nothing touched: `null OP ret=0`
   explore N       (not part of the diff protocol) dump the reachable state graph of the current
                   programs, at most N states
 
@@ -107,9 +110,18 @@ structure St where
   o : Oracle := {}
   nospec : Bool := false
 
+/-- is some thread at / inside / returning from a condition-variable wait on behalf of a trylock call
+    (never, by `PV.Props.C02.try_never_waits`; the harness's oracle flag of the same name is sticky) -/
+def tryBlocked (s : State) : Bool :=
+  s.threads.any fun th =>
+    match th.pc with
+    | .atWait op _ | .blocked op _ | .woken op _ => op == .rtry || op == .wtry
+    | _ => false
+
 def statusLine (s : State) (o : Oracle) (nospec : Bool := false) : String :=
   let core := statusCore s
-  let flags := (if deadlocked s then " !DEADLOCK" else "") ++ (if o.unsafeSeen then " !UNSAFE" else "")
+  let flags := (if deadlocked s then " !DEADLOCK" else "") ++ (if o.unsafeSeen then " !UNSAFE" else "") ++
+    (if tryBlocked s then " !TRYBLOCK" else "")
   if flags.isEmpty then core else if nospec then core ++ flags else core ++ flags ++ " SPECDIFF " ++ core
 
 /-! ### state graph dump -/
@@ -213,6 +225,13 @@ def step (st : St) (toks : List String) : IO (St × Bool) := do
       | some s' => IO.println (statusLine s' st.o st.nospec); return ({ st with s := some s' }, false)
     | _, _ => IO.println "bad-op"; return (st, false)
   | ["reset"] => IO.println "ok"; return ({}, false)
+  | ["twin"] =>
+    if st.s.isNone then IO.println "bad-op"; return (st, false)
+    IO.println "twin ok"; return (st, false)
+  | ["null", op] =>
+    match parseOp op with
+    | some op => IO.println s!"null {opName op} ret=0"; return (st, false)
+    | none => IO.println "bad-op"; return (st, false)
   | ["nospec"] =>
     if st.s.isSome then IO.println "bad-op"; return (st, false)
     IO.println "ok"; return ({ st with nospec := true }, false)
@@ -245,6 +264,8 @@ def stepPosix (_ : Unit) (toks : List String) : IO (Unit × Bool) := do
     match code.toInt? with
     | some code => IO.println s!"new ret={if Posix.newOk true code then 1 else 0}"; return ((), false)
     | none => IO.println "bad-op"; return ((), false)
+  -- every call goes to the handle inside the lock object it is given (`&lock->hdl`, `&ret->hdl`)
+  | ["ident"] => IO.println "ident ok"; return ((), false)
   | ["reset"] => IO.println "ok"; return ((), false)
   | _ => IO.println "bad-op"; return ((), false)
 
